@@ -13,12 +13,12 @@ In every new canonical state: LIST == model, PEEK link chain == model numbers an
 ends in 00 00, incremental index == independent rescan == real rebuild_line_dict,
 execution entering at each line lands where the model says.
 """
+import os
 import hashlib
 
 from mc.core import Leg, Partial, CheckError
 from mc import harness as H
 from mc import progstore as R
-from mc import bfs
 from models.progmodel import ProgramModel, line_text
 
 PROPERTY = 'C13'
@@ -290,44 +290,46 @@ def check_state(s, model, tag, code, index):
     return viols
 
 
-_CHECKED = set()
-
-
 def replay_history(hist):
-    """Fresh session + model after hist. Returns (session, model, ok)."""
+    """Fresh session + model after hist. Returns (session, model, ok, label of the last op)."""
     s = R.bounded_session(limit=40)
     model = ProgramModel()
+    label = 'start'
     for op in hist:
-        r, _label, _v = apply_op(s, model, tuple(op))
+        r, label, _v = apply_op(s, model, tuple(op))
         if r.exc is not None:
-            return s, model, False
-    return s, model, True
+            return s, model, False, label
+    return s, model, True, label
 
 
 def _expand(hist, cfgname):
+    """Phase 1 (cheap): every op of the alphabet applied to the state reached by hist."""
     cfg = CONFIGS[cfgname]
     out = []
     for op in cfg['ops']:
-        s, model, ok = replay_history(hist)
+        s, model, ok, _l = replay_history(hist)
         if not ok:
             raise CheckError('history %r no longer replays' % (hist,))
-        nbefore = len(model.lines)
         r, label, viols = apply_op(s, model, op)
         if r.exc is not None:
-            out.append((op, None, viols, label))
+            out.append((op, None, viols, label, True))
             continue
-        digest, code, index = state_key(s)
-        if digest not in _CHECKED:
-            _CHECKED.add(digest)
-            viols = viols + check_state(s, model, label, code, index)
-        key = digest
+        digest, _code, _index = state_key(s)
+        stop = False
         if len(model.lines) > cfg['maxlines']:
-            key = None
+            stop = True
             label += '/cap'
-        if viols:
-            key = None   # do not explore beyond a broken state
-        out.append((op, key, viols, label))
+        out.append((op, digest, viols, label, stop))
     return out
+
+
+def check_history(hist):
+    """Phase 2: all state invariants in the state reached by hist (once per canonical state)."""
+    s, model, ok, label = replay_history(hist)
+    if not ok:
+        raise CheckError('history %r no longer replays' % (hist,))
+    _digest, code, index = state_key(s)
+    return check_state(s, model, label, code, index)
 
 
 def expand_small(hist):
@@ -344,17 +346,16 @@ def expand_big(hist):
 
 def work_closure(shard):
     part = Partial()
-    res = bfs.explore(expand_small2 if shard.get('maxlines') == 2 else expand_small, [()],
-                      shard['depth'], part, label='closure',
-                      time_budget=shard.get('budget'))
+    res = R.explore_checked(expand_small2 if shard.get('maxlines') == 2 else expand_small, check_history,
+                            [()], shard['depth'], part, label='closure', time_budget=shard.get('budget'))
     part.add('closure_states', res['states'])
     return part
 
 
 def work_depth(shard):
     part = Partial()
-    res = bfs.explore(expand_big, [()], shard['depth'], part, label='depth',
-                      time_budget=shard.get('budget'))
+    res = R.explore_checked(expand_big, check_history, [()], shard['depth'], part, label='depth',
+                            time_budget=shard.get('budget'))
     part.add('depth_unexpanded_frontier', res['unexpanded_frontier'])
     return part
 
@@ -370,19 +371,24 @@ def legs(ctx):
             Leg('depth', [{'depth': 3}], work_depth, exhaustive=True, serial=True,
                 bound='all histories of <=3 ops over %d ops, programs <=4 lines expanded' % nbig),
         ]
+    # depth 5 = 671 k transitions / 88 k states (3.5 min on 16 idle cores, ~5 ms per transition);
+    # VERIF_C13_DEPTH=4 (90 k transitions) is the fallback on a loaded machine
+    depth = int(os.environ.get('VERIF_C13_DEPTH', '5'))
     return [
         Leg('closure', [{'depth': 64}], work_closure, exhaustive=True, serial=True,
             bound='fixed point of %d ops over lines {10,20,30}, programs <=3 lines expanded '
                   '(extra closure_fixed_point=1 confirms closure)' % nsmall),
-        Leg('depth', [{'depth': 5}], work_depth, exhaustive=True, serial=True,
-            bound='all histories of <=5 ops over %d ops, programs <=4 lines expanded' % nbig),
+        Leg('depth', [{'depth': depth}], work_depth, exhaustive=True, serial=True,
+            bound='all histories of <=%d ops over %d ops, programs <=4 lines expanded' % (depth, nbig)),
     ]
 
 
 def replay(ctx, leg, case):
     part = Partial()
     hist = [tuple(None if x is None else x for x in op) for op in case['history']]
-    s, model, ok = replay_history(hist[:-1])
+    if not hist:
+        return part
+    s, model, ok, _l = replay_history(hist[:-1])
     r, label, viols = apply_op(s, model, tuple(hist[-1]))
     if r.exc is None:
         _d, code, index = state_key(s)
